@@ -151,7 +151,33 @@ _UNI_WIT = (
 # every processed entry is the witness of its own code point (hence no two entries share one)
 _UNI_INJ = "all(all(font.uni[glyphOrder[a]][b] in mapping and wi[font.uni[glyphOrder[a]][b]] == a and wj[font.uni[glyphOrder[a]][b]] == b for b in range(len(font.uni[glyphOrder[a]]))) for a in range(i))"
 
-def _umap_contract(name, cls_name):
+def _no_uni_view(txt, recv="font"):
+    """rewrite `<recv>.uni[<expr>]` to `<recv>.glyphs[<expr>].unicodes` (a field read through the dict instead of the lambda-defined
+    Map view: `select(lambda, x)` under a quantifier is not beta-reduced before instantiation, which blocked the composition proofs)"""
+    key = recv + ".uni["
+    out = ""
+    k = 0
+    while True:
+        p = txt.find(key, k)
+        if p < 0:
+            return out + txt[k:]
+        out += txt[k:p]
+        depth, q = 1, p + len(key)
+        while depth:
+            depth += {"[": 1, "]": -1}.get(txt[q], 0)
+            q += 1
+        out += f"{recv}.glyphs[{_no_uni_view(txt[p + len(key):q - 1], recv)}].unicodes"
+        k = q
+
+
+def _umap_contract(name, cls_name, tr=lambda t: t):
+  def _map_clauses(d):
+      return {k: tr(v) for k, v in d.items()}
+
+  return _umap_contract_raw(name, cls_name, tr, _map_clauses)
+
+
+def _umap_contract_raw(name, cls_name, tr, _mc):
   return contract(
     "ufo2ft.util:makeUnicodeToGlyphNameMapping",
     name=name,
@@ -159,37 +185,37 @@ def _umap_contract(name, cls_name):
     params={"font": Ref(cls_name), "glyphOrder": Opt(List(STR))},
     returns=Dict(INT, STR),
     requires=["glyphOrder is not None", "all(n in font.keyset for n in glyphOrder)"],
-    ensures={
+    ensures=_mc({
         # every declared code point is mapped to the glyph that declares it ...
         "maps": "all(all(u in result and result[u] == glyphOrder[i] for u in font.uni[glyphOrder[i]]) for i in range(len(glyphOrder)))",
         # ... and nothing else is mapped
         "only": "all(any(any(font.uni[glyphOrder[i]][j] == u for j in range(len(font.uni[glyphOrder[i]]))) for i in range(len(glyphOrder))) for u in result)",
-    },
-    raises={
+    }),
+    raises=_mc({
         # rejected exactly when two different (glyph, position) entries carry the same code point
         "InvalidFontData": "any(any(any(any((a != i or b != j) and font.uni[glyphOrder[a]][b] == font.uni[glyphOrder[i]][j]"
         " for b in range(len(font.uni[glyphOrder[a]]))) for a in range(len(glyphOrder)))"
         " for j in range(len(font.uni[glyphOrder[i]]))) for i in range(len(glyphOrder)))",
-    },
-    canaries={"maps-wrong": "all(all(result[u] == glyphOrder[0] for u in font.uni[glyphOrder[i]]) for i in range(len(glyphOrder)))"},
+    }),
+    canaries=_mc({"maps-wrong": "all(all(result[u] == glyphOrder[0] for u in font.uni[glyphOrder[i]]) for i in range(len(glyphOrder)))"}),
     locals={"mapping": Dict(INT, STR)},
     ghost_vars={"wi": (Dict(INT, INT), "{}"), "wj": (Dict(INT, INT), "{}")},
     ghost={"mapping[uni] = glyphName": ["wi = {**wi, uni: i}", "wj = {**wj, uni: j}"]},
     loops={
         "for glyphName in glyphOrder": Loop(
             index="i",
-            invariants={
+            invariants=_mc({
                 "wit": _UNI_WIT.format(bound="wi[u] < i"),
                 "inj": _UNI_INJ,
-            },
+            }),
         ),
         "for uni in unicodes": Loop(
             index="j",
-            invariants={
+            invariants=_mc({
                 "wit": _UNI_WIT.format(bound="(wi[u] < i or (wi[u] == i and wj[u] < j))"),
                 "inj": _UNI_INJ,
                 "inj-cur": "all(unicodes[b] in mapping and wi[unicodes[b]] == i and wj[unicodes[b]] == b for b in range(j))",
-            },
+            }),
         ),
     },
 )
@@ -831,7 +857,7 @@ contract(
     sorted_axioms=True,
     runtime=Runtime(_order_cases, lambda d: {"font": {n: None for n in d["names"]}, "glyphOrder": list(d["order"])}),
 )
-_umap_contract("compiler-set", "NotdefGlyphSet").runtime = Runtime(_umap_cases, _umap_build)
+_umap_contract("compiler-set", "NotdefGlyphSet", _no_uni_view).runtime = Runtime(_umap_cases, _umap_build)
 
 _AGS = "self.allGlyphs"
 contract(
@@ -849,6 +875,10 @@ contract(
     },
     canaries={"empty": "len(result) == 0"},
 )
+def _nuv_self(d):
+    return {k: _no_uni_view(v, "self.allGlyphs") for k, v in d.items()}
+
+
 contract(
     "ufo2ft.outlineCompiler:BaseOutlineCompiler.makeUnicodeToGlyphNameMapping",
     props=["C03"],
@@ -858,15 +888,15 @@ contract(
     modifies=[],
     # the glyph order is the one makeOfficialGlyphOrder made from this very glyph set (only-glyph-names above)
     requires=[f"all(n in {_AGS}.keyset for n in self.glyphOrder)"],
-    ensures={
+    ensures=_nuv_self({
         "maps": f"all(all(u in result and result[u] == self.glyphOrder[i] for u in {_AGS}.uni[self.glyphOrder[i]]) for i in range(len(self.glyphOrder)))",
         "only": f"all(any(any({_AGS}.uni[self.glyphOrder[i]][j] == u for j in range(len({_AGS}.uni[self.glyphOrder[i]]))) for i in range(len(self.glyphOrder))) for u in result)",
-    },
-    raises={
+    }),
+    raises=_nuv_self({
         "InvalidFontData": f"any(any(any(any((a != i or b != j) and {_AGS}.uni[self.glyphOrder[a]][b] == {_AGS}.uni[self.glyphOrder[i]][j]"
         f" for b in range(len({_AGS}.uni[self.glyphOrder[a]]))) for a in range(len(self.glyphOrder)))"
         f" for j in range(len({_AGS}.uni[self.glyphOrder[i]]))) for i in range(len(self.glyphOrder)))",
-    },
+    }),
     canaries={"empty": "len(result) == 0"},
 )
 
@@ -907,3 +937,87 @@ def _wrap_build(with_order):
 
 CONTRACTS["ufo2ft.outlineCompiler:BaseOutlineCompiler.makeOfficialGlyphOrder"].runtime = Runtime(_wrap_cases, _wrap_build(True), call=lambda fn, a: fn(a["self"], a["glyphOrder"]))
 CONTRACTS["ufo2ft.outlineCompiler:BaseOutlineCompiler.makeUnicodeToGlyphNameMapping"].runtime = Runtime(_wrap_cases, _wrap_build(False), call=lambda fn, a: fn(a["self"]))
+
+
+# =====================================================================================================
+# BaseOutlineCompiler.__init__ as a COMPOSITION (TrueType receiver: the override of makeMissingRequiredGlyphs is the general case; the OTF
+# receiver runs the base method, whose contract says strictly more).  The glyph set is given (the pre-processor's), the glyph order is given.
+#   glyph set  -> makeMissingRequiredGlyphs -> self.allGlyphs
+#   glyph order = makeOfficialGlyphOrder(self.allGlyphs, glyphOrder)          ('.notdef' first, listed, rest sorted; each glyph once)
+#   character map source = makeUnicodeToGlyphNameMapping(self.allGlyphs, self.glyphOrder)
+# and InvalidFontData is raised IFF two (glyph, position) entries of the FINAL glyph set declare the same code point — stated over the
+# PRE-state: the given glyphs' own code points, plus the code points a given notdefGlyph brings in when '.notdef' is absent
+# (a synthesised '.notdef' and the stand-ins of sparse masters declare none).
+CLASSES["NotdefCompiler"].dynamic = True
+CLASSES["NotdefCompiler"].fields.update({"ufo": Ref("Font"), "unicodeToGlyphNameMapping": Dict(INT, STR)})
+
+_OG = "old(glyphSet.glyphs)"
+_OU = "old(glyphSet.uni)"
+_NDU = "old(notdefGlyph.unicodes)"
+# the FINAL glyph set in pre-state terms (default source): the given names plus '.notdef'; a given glyph keeps its code points, a '.notdef'
+# that has to be made declares those of the given notdefGlyph (copy) or none (stub)
+_CASES = {
+    # case -> (extra requires, final key set in pre-state terms, code points of name n in pre-state terms)
+    "has-notdef": (["'.notdef' in glyphSet"], "old(glyphSet.keyset)", lambda n: f"old(glyphSet.glyphs[{n}].unicodes)"),
+    "stub-notdef": (["'.notdef' not in glyphSet", "notdefGlyph is None"], "(old(glyphSet.keyset) | {'.notdef'})",
+                    lambda n: f"(old(glyphSet.glyphs[{n}].unicodes) if {n} in {_OG} else [])"),
+    "copied-notdef": (["'.notdef' not in glyphSet", "notdefGlyph is not None"], "(old(glyphSet.keyset) | {'.notdef'})",
+                      lambda n: f"(old(glyphSet.glyphs[{n}].unicodes) if {n} in {_OG} else {_NDU})"),
+}
+
+
+def _dup(order, uni):
+    """clause text: two different (position in the glyph order, index) entries carry the same code point"""
+    return (f"any(any(any(any((a != i or b != j) and {uni(f'{order}[a]')}[b] == {uni(f'{order}[i]')}[j] for b in range(len({uni(f'{order}[a]')}))) for a in range(len({order})))"
+            f" for j in range(len({uni(f'{order}[i]')}))) for i in range(len({order})))")
+
+
+_SAG = "self.allGlyphs"
+
+
+def _init_contract(case):
+  _REQ, _KEYS_PRE, _E = _CASES[case]
+  _ORDER_PRE = f"official_order({_KEYS_PRE}, glyphOrder)"
+  return contract(
+    "ufo2ft.outlineCompiler:BaseOutlineCompiler.__init__",
+    name="composition-" + case,
+    props=["C03"],
+    params={"self": Ref("NotdefCompiler"), "font": Ref("Font"), "glyphSet": Opt(Ref("NotdefGlyphSet")), "glyphOrder": Opt(List(STR)), "tables": Const(None),
+            "notdefGlyph": Opt(Ref("StubGlyph")), "ftConfig": Const(None), "compilingVFDefaultSource": Const(True)},
+    globals=_G,
+    requires=["glyphSet is not None", "glyphOrder is not None", _ALL_ALLOC] + _REQ,
+    modifies=["NotdefGlyphSet.glyphs"] + [f"StubGlyph.{f}" for f in ("name", "unicodes", "width", "height", "drawn_from")]
+    + [f"self.{f}" for f in ("ufo", "compilingVFDefaultSource", "allGlyphs", "glyphOrder", "unicodeToGlyphNameMapping", "colrLayerReuse", "colrAutoClipBoxes")],
+    ensures={
+        "glyph-set": f"{_SAG} == glyphSet and {_SAG}.keyset == {_KEYS_PRE}",
+        "given-glyphs-kept": f"all({_SAG}.ident[g] == old(glyphSet.ident)[g] for g in {_OG})",
+        # (n is a bound variable: inside old(..) it keeps its post-state value, only the heap is the pre-state's)
+        "code-points": f"all({_SAG}.glyphs[n].unicodes == {_E('n')} for n in {_SAG}.glyphs)",
+        # '.notdef' first, the listed existing names, the rest sorted — of the final glyph set
+        "order": f"self.glyphOrder == {_ORDER_PRE}",
+        "no-name-twice": "distinct(self.glyphOrder)",
+        "only-glyph-names": f"all(self.glyphOrder[k] in {_KEYS_PRE} for k in range(len(self.glyphOrder)))",
+        "every-glyph-name": f"all(x in self.glyphOrder for x in {_KEYS_PRE})",
+        # the character-map source: every code point of every glyph of the order maps to that glyph, nothing else is mapped
+        "maps": f"all(all(all(u in self.unicodeToGlyphNameMapping and self.unicodeToGlyphNameMapping[u] == n for u in {_E('n')}) for n in [self.glyphOrder[i]]) for i in range(len(self.glyphOrder)))",
+        "only": f"all(any(any(any({_E('n')}[j] == u for j in range(len({_E('n')}))) for n in [self.glyphOrder[i]]) for i in range(len(self.glyphOrder))) for u in self.unicodeToGlyphNameMapping)",
+    },
+    # rejected exactly when two different (glyph of the final order, index) entries declare the same code point — the final order lists
+    # every glyph exactly once (each-glyph-once), so: when two glyphs (or one glyph twice) declare the same code point
+    raises={"InvalidFontData": _dup(_ORDER_PRE, _E)},
+    canaries={"empty-map": "len(self.unicodeToGlyphNameMapping) == 0"},
+    hints={"self.allGlyphs = glyphSet": [
+        f"glyphSet.keyset == {_KEYS_PRE}",
+        f"all(glyphSet.glyphs[n].unicodes == {_E('n')} for n in glyphSet.glyphs)",
+    ], "self.glyphOrder = self.makeOfficialGlyphOrder(glyphOrder)": [
+        # position-wise: the code points the mapping function will read are the pre-state entries
+        f"all(all({_SAG}.glyphs[n].unicodes == {_E('n')} for n in [self.glyphOrder[i]]) for i in range(len(self.glyphOrder)))",
+        # the rejection condition of the mapping function, read in the state now, is the pre-state condition of this contract
+        "implies(" + _dup("self.glyphOrder", lambda x: f"{_SAG}.glyphs[{x}].unicodes") + ", " + _dup(_ORDER_PRE, _E) + ")",
+        "implies(" + _dup(_ORDER_PRE, _E) + ", " + _dup("self.glyphOrder", lambda x: f"{_SAG}.glyphs[{x}].unicodes") + ")",
+    ]},
+)
+
+
+for _case in _CASES:
+    _init_contract(_case)
